@@ -269,6 +269,7 @@ Proof.
     + intros id r Hr. apply nth_error_snoc_inv in Hr. destruct Hr as [Hr|(-> & ->)]; [eapply H; eauto|exact Eh].
   - (* OBind *)
     destruct (nth_error (labels s) l) as [[v|]|] eqn:El; try exact I.
+    destruct (bind_precheck l (cur s) (s_len (cur_sec s)) (pending s) (refs s)); cbn [negb]; cbv iota; [|exact I].
     unfold bind_rel. simpl.
     set (lbls' := upd (labels s) l (Some (cur s, s_len (cur_sec s)))).
     assert (M : label_mono (labels s) lbls') by (apply label_mono_upd; exact El).
